@@ -13,10 +13,12 @@ R(t) == TraceLog[t]
 C(t) == R(t).c
 Cfg(t) == R(t).cfg
 ReqIsSpec(t)  == TreeEq(R(t).obs.req, DRequest(C(t), Cfg(t), R(t).form))
-Delivered(t)  == R(t).obs.ncalls = 1 /\ NormArgs(C(t), R(t).obs.args) = NormArgs(C(t), C(t).vals)
+Sent(t, k, v) == IF Cfg(t).poly THEN v ELSE Proj(C(t).args[k].t, v)
+Back(t, k, v) == IF Cfg(t).poly THEN v ELSE Proj(C(t).rets[k], v)
+Delivered(t)  == R(t).obs.ncalls = 1 /\ NormArgs(C(t), R(t).obs.args) = NormArgs(C(t), [k \in 1..Len(C(t).vals) |-> Sent(t, k, C(t).vals[k])])
 RespIsSpec(t) == "resp" \notin DOMAIN R(t).obs \/ TreeEq(R(t).obs.resp, DResponse(C(t), Cfg(t)))
 RetNorm(c, vs) == [k \in 1..Len(c.rets) |-> Norm(c.rets[k], vs[k])]
-Decodes(t)    == "dec" \notin DOMAIN R(t).obs \/ RetNorm(C(t), R(t).obs.dec) = RetNorm(C(t), C(t).rvals)
+Decodes(t)    == "dec" \notin DOMAIN R(t).obs \/ RetNorm(C(t), R(t).obs.dec) = RetNorm(C(t), [k \in 1..Len(C(t).rets) |-> Back(t, k, C(t).rvals[k])])
 Fails(t) == (IF ReqIsSpec(t) THEN {} ELSE {"ReqIsSpec"}) \cup (IF Delivered(t) THEN {} ELSE {"Delivered"})
             \cup (IF RespIsSpec(t) THEN {} ELSE {"RespIsSpec"}) \cup (IF Decodes(t) THEN {} ELSE {"Decodes"})
 Init == tid \in 1..Len(TraceLog)
